@@ -57,7 +57,10 @@ def main():
     if os.environ.get("VERIF_CHECK_ID", "") != "c15":
         print("{}")
         return
-    src = os.path.join(repo, "mempool/mempool.go")
+    key = os.path.join(repo, "mempool/mempool.go")
+    src = key
+    if os.environ.get("VERIF_SRC_OVERRIDES"):  # a mutant supplied through VERIF_EXTRA_OVERLAY is what gets instrumented
+        src = json.load(open(os.environ["VERIF_SRC_OVERRIDES"])).get(key, key)
     me = hashlib.sha1(open(__file__, "rb").read()).hexdigest()[:6]
     h = hashlib.sha1(open(src, "rb").read()).hexdigest()[:12]
     d = os.path.join(gen, "c15")
@@ -65,7 +68,7 @@ def main():
     dst = os.path.join(d, "mempool__mempool.%s.%s.go" % (h, me))
     if not os.path.exists(dst):
         transform(src, dst)
-    print(json.dumps({src: dst}))
+    print(json.dumps({key: dst}))
 
 
 if __name__ == "__main__":
